@@ -900,7 +900,7 @@ def sec_retry_table(ctx, rng, case):
 
 SECTIONS = [
     ("collector_exhaustive", sec_collector_exhaustive, 240, 344, 1.2),
-    ("collector_random", sec_collector_random, 14000, 300000, 1.2),
+    ("collector_random", sec_collector_random, 10000, 300000, 1.8),
     ("pauli_sum", sec_pauli_sum, 2800, 60000, 0.5),
     ("batch", sec_batch, 4200, 80000, 0.5),
     ("retry_table", sec_retry_table, 30, 30, 0.05),
